@@ -6,9 +6,13 @@ package storage
 // Verdicts come from TLC (spec/Rounds/Trace_Work.tla).
 
 import (
+	"errors"
 	"fmt"
+	"math/rand"
 	"sort"
+	"sync"
 	"testing"
+	"time"
 
 	"github.com/MixinNetwork/mixin/common"
 	"github.com/MixinNetwork/mixin/crypto"
@@ -36,7 +40,169 @@ type vwOp struct {
 
 type vwCases struct {
 	Walks [][]vwOp `json:"walks"`
+	Conc  int      `json:"conc"` // number of concurrent scenarios
 }
+
+// ---------------------------------------------------------------------------------------------
+// concurrent part: several chains (goroutines) submit their monotone scripts through the real
+// WriteRoundWork at the same time, crediting shared signers, each retrying on badger.ErrConflict
+// exactly like kernel/mint.go (*Chain).writeRoundWork does.
+
+type vwSub struct {
+	Round  uint64   `json:"round"`
+	Credit bool     `json:"credit"`
+	Snaps  []vwSnap `json:"snaps"`
+	Res    string   `json:"res"`
+	Tries  int      `json:"tries"`
+}
+
+type vwChain struct {
+	P    int     `json:"p"`
+	Subs []vwSub `json:"subs"`
+	Off  uint64  `json:"off"`
+	Seen []int   `json:"seen"`
+}
+
+// a monotone script for one chain: per round a seeded pattern of partial / full / repeated sets
+func vwScript(rng *rand.Rand, p, chains, nm int) []vwSub {
+	var subs []vwSub
+	rounds := 1 + rng.Intn(3)
+	day := 1 + rng.Intn(vwND)
+	id := 0
+	for r := 0; r < rounds; r++ {
+		if day < vwND && rng.Intn(3) == 0 {
+			day++
+		}
+		credit := rng.Intn(5) != 0
+		n := 1 + rng.Intn(3)
+		snaps := make([]vwSnap, n)
+		for i := range snaps {
+			id++
+			sg := []int{p}
+			for m := 1; m <= nm; m++ {
+				// the shared signers sign almost everything, other chains' nodes sometimes
+				if m != p && ((m > chains && rng.Intn(5) != 0) || (m <= chains && rng.Intn(3) == 0)) {
+					sg = append(sg, m)
+				}
+			}
+			sort.Ints(sg)
+			snaps[i] = vwSnap{Id: id, Day: day, Signers: sg}
+		}
+		sizes := []int{n}
+		switch rng.Intn(4) {
+		case 0:
+			sizes = []int{1 + rng.Intn(n), n, n}
+		case 1:
+			sizes = []int{n, n}
+		case 2:
+			sizes = []int{1 + rng.Intn(n), n}
+		}
+		sort.Ints(sizes)
+		for _, k := range sizes {
+			subs = append(subs, vwSub{Round: uint64(r), Credit: credit, Snaps: append([]vwSnap{}, snaps[:k]...)})
+		}
+	}
+	return subs
+}
+
+func vwConcurrentScenario(tr *vTrace, store *BadgerStore, rng *rand.Rand, salt string) {
+	chains := 2 + rng.Intn(7)
+	nm := chains + 5
+	members := make([]crypto.Hash, nm)
+	for m := range members {
+		members[m] = vwHash(fmt.Sprintf("vw-conc-member|%s|%d", salt, m+1))
+	}
+	cs := make([]*vwChain, chains)
+	ids := make([]map[crypto.Hash]int, chains)
+	for k := range cs {
+		cs[k] = &vwChain{P: k + 1, Subs: vwScript(rng, k+1, chains, nm)}
+		ids[k] = map[crypto.Hash]int{}
+	}
+	mkWorks := func(k int, snaps []vwSnap) []*common.SnapshotWork {
+		works := make([]*common.SnapshotWork, len(snaps))
+		for i, a := range snaps {
+			h := vwHash(fmt.Sprintf("vw-conc-snap|%s|%d|%d", salt, k, a.Id))
+			ids[k][h] = a.Id
+			w := &common.SnapshotWork{Hash: h, Timestamp: uint64(vwBaseDay+a.Day)*DAY_U64 + uint64(3600+a.Id)*1000000000}
+			for _, m := range a.Signers {
+				w.Signers = append(w.Signers, members[m-1])
+			}
+			works[i] = w
+		}
+		return works
+	}
+	start := make(chan struct{})
+	var wg sync.WaitGroup
+	for k := range cs {
+		wg.Add(1)
+		go func(k int) {
+			defer wg.Done()
+			<-start
+			for i := range cs[k].Subs {
+				sub := &cs[k].Subs[i]
+				works := mkWorks(k, sub.Snaps)
+				// kernel/mint.go writeRoundWork: retry while the store reports a transaction conflict
+				for {
+					sub.Tries++
+					conflict := false
+					res, _ := vCall(func() error {
+						err := store.WriteRoundWork(members[k], sub.Round, works, sub.Credit)
+						conflict = err != nil && errors.Is(err, badger.ErrConflict)
+						return err
+					})
+					sub.Res = res
+					if conflict && sub.Tries < 10000 {
+						time.Sleep(time.Duration(50+sub.Tries%7*40) * time.Microsecond)
+						continue
+					}
+					break
+				}
+				if sub.Res != "ok" {
+					return
+				}
+			}
+		}(k)
+	}
+	close(start)
+	wg.Wait()
+	for k := range cs {
+		off, err := store.ReadWorkOffset(members[k])
+		if err != nil {
+			panic(err)
+		}
+		cs[k].Off = off
+		cs[k].Seen = []int{}
+		err = store.snapshotsDB.View(func(txn *badger.Txn) error {
+			_, osm, err := graphReadWorkOffset(txn, graphWorkOffsetKey(members[k]))
+			for h := range osm {
+				id, ok := ids[k][h]
+				if !ok {
+					id = -1
+				}
+				cs[k].Seen = append(cs[k].Seen, id)
+			}
+			return err
+		})
+		if err != nil {
+			panic(err)
+		}
+		sort.Ints(cs[k].Seen)
+	}
+	lead := make([][]uint64, nm)
+	sign := make([][]uint64, nm)
+	for d := 1; d <= vwND; d++ {
+		works, err := store.ListNodeWorks(members, uint32(vwBaseDay+d))
+		if err != nil {
+			panic(err)
+		}
+		for m := 0; m < nm; m++ {
+			lead[m] = append(lead[m], works[members[m]][0])
+			sign[m] = append(sign[m], works[members[m]][1])
+		}
+	}
+	tr.Emit(vM{"ev": "Conc", "nm": nm, "chains": cs, "lead": lead, "sign": sign})
+}
+
 
 type vwWorld struct {
 	salt    string
@@ -150,5 +316,9 @@ func TestVerifWork(t *testing.T) {
 				t.Fatalf("unknown op %s", op.Op)
 			}
 		}
+	}
+	rng := rand.New(rand.NewSource(vSeed()))
+	for i := 0; i < cases.Conc; i++ {
+		vwConcurrentScenario(tr, store, rng, fmt.Sprintf("%d-c%d", vSeed(), i))
 	}
 }
